@@ -156,7 +156,7 @@ def run_body(body, val):
 
 # ------------------------------------------------------------------ code side
 QUERY = re.compile(r"self\.(debug_step|in_scope|in_scope_named|current_node|current_node_named|current_node_in|in_html_elem_named|is_fragment|is_type_hidden|html_elem_named|body_elem|"
-                   r"should_attach_declarative_shadow|orig_mode\.take|reset_insertion_mode)$|call (empty_set|special_tag|any_not_whitespace|current_node|html_elem)$|"
+                   r"should_attach_declarative_shadow|orig_mode\.take|reset_insertion_mode)$|call (empty_set|special_tag|any_not_whitespace|current_node|html_elem|extract_a_character_encoding_from_a_meta_element)$|"
                    r"self\.sink\.(elem_name|same_node)$|self\.pending_table_text\.take(\(\)\.into_iter)?$")
 
 
